@@ -77,6 +77,8 @@ def check(case):
     return dict(nontrivial=bool(ratio > 2 or mmax > 1), labels=labels)
 
 
+REQUIRED_LABELS = ['positivity/ratio:>=100', 'positivity/mach:>=1', 'positivity/bc:per', 'positivity/bc:sym', 'positivity/euler1d/hlle', 'positivity/euler1d/hllc', 'positivity/shallowwater/rusanov', 'positivity/shallowwater/hll']
+
 SUBCHECKS = [
     SubCheck("positivity", check, strategy=strat, examples={"quick": 400, "thorough": 2500}, shards={"quick": 8, "thorough": 16}),
 ]
